@@ -13,6 +13,7 @@ import re
 from collections import Counter
 
 import common
+import detect_tie
 import seg_gen
 from consts import trainer_seg
 
@@ -559,6 +560,8 @@ def run(ctx):
             shard_cases[name] = meta[s0:s0 + 400]
     vio += trainer_stage(ctx, kb, ctxs, tlds, kw, dist)
     corr.append(("unicode-facts:generated-strings-within-pool-and-lower-charwise", facts_ok, ""))
+    # the translator tie (gen/Detect_gen.v and its equality proofs): which part no longer checks, if any
+    corr.extend(detect_tie.status())
     # negative control: one deliberately wrong expectation must be reported as a mismatch
     mw0 = make_detector([], [], kw)
     csecs, ccnt, _ = run_impl(mw0, ["a1"])
